@@ -311,7 +311,7 @@ pub(crate) mod k9 {
     use super::*;
     use crate::__verif::kg::*;
 
-    const LIM4: u32 = if crate::__verif::THOROUGH { 1 << 9 } else { 1 << 5 };
+    const LIM4: u32 = if crate::__verif::THOROUGH { 1 << 7 } else { 1 << 5 };
 
     fn ipt() -> (i64, i64, Point) {
         let i: u32 = kani::any();
